@@ -30,6 +30,45 @@ CHECKS = {
                      "the eight hooks may observe is a HOOKOBS obligation at its call site in the real bodies; children-level "
                      "ordering follows from the loop invariants over parent-setter contracts.",
                 tech="contract-based deductive verification with ghost hook log"),
+    "C04": dict(cat="proof", design="3/C04",
+                text="Each navigation attribute is proved, from its real body in both mixins, to equal its definition over the "
+                     "parent/children relation (first-order postconditions over the ghost forest theory: path/ancestors/root/"
+                     "depth/siblings/is_leaf/is_root; height against the recursive HEIGHT; descendants/leaves/size against the "
+                     "proved PreOrderIter contract). util.* helpers: see level_note.",
+                tech="contract-based deductive verification: AST->SMT VCs from /repo source, sidecar contracts, z3/cvc5",
+                note="Assumed: existence of the ghost functions (ancestor relation, depth, index, HEIGHT, ancestor-at-depth) in a "
+                     "finite forest; bridge 'HEIGHT = longest downward path' and 'PRE = all nodes below' are Lean/bounded bridges "
+                     "(see evidence.lemmas). util.commonancestors/leftsibling/rightsibling are covered by the bounded stand-in only "
+                     "until their contracts are added (labelled in the evidence)."),
+    "C05": dict(cat="proof", design="3/C05",
+                text="Each iterator's generator body (_iter, __next, _get_grandchildren) and the AbstractIter protocol (__init__, "
+                     "__init, __next__, helpers) are proved equal to recursive specification functions (PRE, POSTF, LEVEL, LEVELG, "
+                     "ZIG) for all trees, by loop invariants / the functions' own contracts at recursive calls; quantifier-free "
+                     "sequence obligations. The reading 'every subtree node exactly once, in the defined order' is the bridge "
+                     "L3/L4 (validated boundedly on the spec functions, Lean pending).",
+                tech="contract-based deductive verification against recursive spec functions (z3 sequences)"),
+    "C06": dict(cat="proof", design="3/C06",
+                text="Same obligations as C05 with filter_, stop (uninterpreted callbacks) and maxlevel (any integer or None) "
+                     "symbolic: the code is proved equal to the budgeted spec functions; maxlevel<=0 and stop(start) yield nothing "
+                     "are consequences. The single admitted-set reading is bridge L5 (bounded validation of the spec functions "
+                     "against the admitted-set semantics on all trees <=4/5 nodes x all subsets x all maxlevel).",
+                tech="contract-based deductive verification against recursive spec functions (z3 sequences)"),
+    "C14": dict(cat="proof", design="3/C14",
+                text="_findall/_find/_filter_by_name, the four public search functions and the four cachedsearch wrappers are "
+                     "proved from their real bodies: result = tuple of the PreOrderIter contract for the same arguments, "
+                     "CountError iff below mincount / above maxcount with the message template bound to both numbers, find = "
+                     "None/node/CountError, *_by_attr select exactly the nodes whose attribute exists and equals value (no "
+                     "AttributeError escapes); the cachedsearch fallback decorator is the identity (syntactic obligation).",
+                tech="contract-based deductive verification (seq world) + syntactic obligation for the decorator"),
+    "C18": dict(cat="proof", design="3/C18",
+                text="ASTEQ obligations: every member of LightNodeMixin is syntactically NodeMixin's member modulo the mangling "
+                     "prefix/class name; the two isinstance guards are proved (SMT, from the real guard expressions) to be skips "
+                     "for tree-node arguments; plus both families are verified against the same sidecar contracts "
+                     "(all C01/C02/C03/C16 obligations of both).",
+                tech="syntactic equivalence obligations + shared contracts discharged for both mixins",
+                note="Assumed: slot storage and dict storage agree on get/set/has of the two bookkeeping attributes; syntactically "
+                     "equal bodies under equal attribute semantics are observationally equal. Differential lock-step execution "
+                     "(bounded) is used only for replay and in the thorough tier."),
 }
 REASONS = {}
 
